@@ -10,4 +10,6 @@ def specs_direct(tier):
     s += [("contracts.kpm", "unit_solve_sylvester_KPM", {"nsub": n, "with_aux": a, "timeout_ms": t}) for n, a in ((1, False), (1, True), (2, True))]
     s += [("contracts.linalg_direct", "unit_constrain_matrix", {"cols_given": cg, "timeout_ms": t}) for cg in (True, False)]
     s += [("contracts.linalg_direct", "unit_direct_greens_function", {"kernel": k, "mumps": m, "timeout_ms": t}) for k in ("none", "same", "pair") for m in (False, True)]
+    s += [("contracts.linalg_direct", "unit_kernel_pivot_rows", {"timeout_ms": t})]
+    s += [("contracts.grouping", "unit_group_close_energies", {"kind": k, "timeout_ms": t}) for k in ("empty", "real", "complex")]
     return s
